@@ -69,11 +69,18 @@ def _create_new_header(
     if style is None:
         style = cast(Type[CommentStyle], PythonCommentStyle)
 
-    rendered = template.render(
-        copyright_lines=sorted(reuse_info.copyright_lines),
-        contributor_lines=sorted(reuse_info.contributor_lines),
-        spdx_expressions=sorted(map(str, reuse_info.spdx_expressions)),
-    ).strip("\n")
+    try:
+        rendered = template.render(
+            copyright_lines=sorted(reuse_info.copyright_lines),
+            contributor_lines=sorted(reuse_info.contributor_lines),
+            spdx_expressions=sorted(map(str, reuse_info.spdx_expressions)),
+        ).strip("\n")
+    # A template is a program. Whatever goes wrong while it runs, no header
+    # comes out of it.
+    # pylint: disable=broad-except
+    except Exception as error:
+        _LOGGER.debug("template could not be rendered: %s", error)
+        raise MissingReuseInfoError() from error
 
     if template_is_commented:
         result = rendered
@@ -83,7 +90,11 @@ def _create_new_header(
         )
 
     # Verify that the result contains all ReuseInfo.
-    new_reuse_info = extract_reuse_info(result)
+    try:
+        new_reuse_info = extract_reuse_info(result)
+    except (ExpressionError, ParseError) as error:
+        # E.g. a template that spells out an expression that does not parse.
+        raise MissingReuseInfoError() from error
     # (Expressions are compared by how they are written: both sets may hold
     # parsed expressions or plain strings.)
     # Contributors are compared only when the template renders contributors
